@@ -139,7 +139,7 @@ int_harness!(h_int_hex_i32b, h_int_dec_i32b, h_int_rt_i32b, i32, 32, true, "7", 
 // 64 bit: concrete leading digits + symbolic tail (covers 16/17 hex digits and 19/20/21 decimal digits around the limits)
 int_harness!(h_int_hex_u64, h_int_dec_u64, h_int_rt_u64, u64, 64, false, "FFFFFFFFFFF", 6, "18446744073709", 7);
 int_harness!(h_int_hex_i64, h_int_dec_i64, h_int_rt_i64, i64, 64, true, "7FFFFFFFFFF", 6, "9223372036854", 7);
-int_harness!(h_int_hex_u64b, h_int_dec_u64b, h_int_rt_u64b, u64, 64, false, "", 8, "", 9);
+int_harness!(h_int_hex_u64b, h_int_dec_u64b, h_int_rt_u64b, u64, 64, false, "", 8, "", 6);
 
 // ------------------------------------------------------------------ C01: string escape / unescape / string end agree
 
